@@ -1,13 +1,20 @@
 import LivesimVerif.Model.Patch
+import LivesimVerif.Lemmas.Myers
 /-!
 # C11 — Applying a served MPD patch to the old MPD yields the new MPD
 
 Proved here: the SegmentTimeline (leaf-list) part.  For every element type, every pair of lists and every edit script
 that is *valid* (`Patch.Valid`: deletions/insertions in position order, kept stretches equal), the operations emitted by
 the loop of `addLeafListChanges`, applied in order with RFC 5261 semantics, turn the old list into the new list.
-Validity of the actual `MyersDiff` output is evaluated per generated case by the driver (`validB`, a run-time
-certificate — labelled as a test); the element-level recursion (`addElemChanges`, `calcAddr`) and the served patch flow
-are covered by the harness' own RFC 5261 applier (monitors).  Partial with respect to Myers and element addressing.
+Validity of the `MyersDiff` output is a theorem as well: `Model/Myers.lean` models the linear-space Myers search and
+the recursion of `diffInternal` statement by statement (tied by the op `myers`, which compares the model's script with
+the real one), and `c11_myers_sound` shows that whatever it returns is a valid script — for every pair of lists, from
+the equality of the snake the search hands to the recursion and, for the branches taken when `D ≤ 1`, from a symbolic
+execution of the first two rounds of the search (`Lemmas/Myers.lean`).  `c11_myers_patch` composes the two.  That
+`MyersDiff` returns at all (no index panic, recursion terminates) is not proved; the op `myers` and the fuzzing monitor
+observe it.  The run-time certificate `validB` stays in the `leaf` op as a cross-check.  The element-level recursion
+(`addElemChanges`, `calcAddr`) and the served patch flow are covered by the harness' own RFC 5261 applier (monitors).
+Partial with respect to element addressing and to termination of Myers.
 -/
 namespace Patch
 
@@ -126,6 +133,24 @@ theorem validB_sound {α : Type} [DecidableEq α] (xs ys : List α) (es : List E
     | ins p q =>
       simp only [validB, Bool.and_eq_true, decide_eq_true_eq, beq_iff_eq] at h
       exact ⟨h.1.1.1.1.1, h.1.1.1.1.2, h.1.1.1.2, h.1.1.2, h.1.2, ih _ _ h.2⟩
+
+/-- **Myers soundness**: every script the model of `MyersDiff` returns is valid, for all lists over any element type -/
+theorem c11_myers_sound {α : Type} [DecidableEq α] (xs ys : List α) (es : List Edit)
+    (h : Myers.myers xs ys = some es) : Valid xs ys es 0 0 := Myers.myers_valid xs ys es h
+
+/-- **Leaf list, end to end**: the operations `addLeafListChanges` emits for the script of `MyersDiff`, applied in
+order, turn the old `S` list into the new one. -/
+theorem c11_myers_patch {α : Type} [DecidableEq α] (xs ys : List α) (es : List Edit)
+    (h : Myers.myers xs ys = some es) :
+    ∃ ops, leafOps ys es 0 0 = some ops ∧ applyOps ops xs = some ys :=
+  c11_leaflist_whole xs ys es (c11_myers_sound xs ys es h)
+
+/-- non-vacuity: the model returns scripts (window slide, `D ≤ 1` branches, one list empty) -/
+example : Myers.myers [1, 2, 3, 4] [2, 3, 4, 5] = some [.del 0, .ins 4 3] := by decide
+example : Myers.myers [1, 2, 3] [1, 2, 3, 4] = some [.ins 3 3] := by decide
+example : Myers.myers [1, 2, 3] [1, 2] = some [.del 2] := by decide
+example : Myers.myers [7, 8] [7, 8] = some [] := by decide
+example : Myers.myers ([] : List Nat) [5, 6] = some [.ins 0 0, .ins 0 1] := by decide
 
 /-- non-vacuity: timeline `[a,b,c,d]` → `[b,c,d,e]` (oldest segment leaves, a new one is appended) -/
 example : validB [1, 2, 3, 4] [2, 3, 4, 5] [.del 0, .ins 4 3] 0 0 = true := by decide
